@@ -4,7 +4,8 @@ CONSTANTS
   Variant = "current"
   MaxDefs = 3
   MaxGets = 2
+  InjLen = 0
   Emit = FALSE
-INVARIANTS StackEmptyWhenQuiet Precedence NoRecursion OnceBuilt LazyFactories
+INVARIANTS InjectConsistent StackEmptyWhenQuiet Precedence NoRecursion OnceBuilt LazyFactories
 VIEW View
 CHECK_DEADLOCK FALSE
